@@ -57,18 +57,36 @@ ATOMS.update({
     'frac': ('size < 10.5', None), 'huge': ('size < 18446744073709551615', None), 'lenrx': ("length(name) rx '^3$'", None),
 })
 
+T0 = 1614852000      # 2021-03-04 10:00:00 UTC
+ATOMS.update({
+    # date conditions around entries whose time stamp has a fraction of a second: a condition and its complement see the same second
+    'dgt': ("modified > '2021-03-04 10:00:00'", None), 'dle': ("modified <= '2021-03-04 10:00:00'", None), 'dge': ("modified >= '2021-03-04 10:00:01'", None),
+    'dbtw': ("modified between '2021-03-04 09:00:00' and '2021-03-04 10:00:00'", None),
+    'dnbtw': ("modified not between '2021-03-04 09:00:00' and '2021-03-04 10:00:00'", "modified between '2021-03-04 09:00:00' and '2021-03-04 10:00:00'"),
+    'deq': ("modified = '2021-03-04 10:00'", None), 'dne': ("modified != '2021-03-04 10:00:00'", None),
+})
+STAMPS = {'p9': T0 - 0.1, 'q0': T0, 'p4': T0 + 0.4, 'p99': T0 + 0.999, 'r1': T0 + 1, 'r14': T0 + 1.4, 'm59': T0 + 59.5, 'm60': T0 + 60.25, 'h9': T0 - 3600, 'h8': T0 - 3600.5}
+
+
+def _sec(n):
+    import math
+    return math.floor(STAMPS[n]) if n in STAMPS else 4000000000
+
+
 # the meaning of the atoms whose pattern is computed per entry (their rows cannot be taken on trust from a run in
 # which the first entry met decides): name -> bool
 MEANING = {
     'dyn': lambda n: len(n) >= 2 and n[-1] in 'xX', 'dynall': lambda n: True, 'dynext': lambda n: True,
     'dynrx': lambda n: len(n) >= 2 and n.endswith('t'),
     'likeA': lambda n: n[:1] in 'aA', 'globA': lambda n: n[:1] in 'aA', 'rxA': lambda n: n[:1] == 'a', 'nrxA': lambda n: n[:1] != 'a',
+    'dgt': lambda n: _sec(n) > T0, 'dle': lambda n: _sec(n) <= T0, 'dge': lambda n: _sec(n) >= T0 + 1, 'dbtw': lambda n: T0 - 3600 <= _sec(n) <= T0,
+    'dnbtw': lambda n: not (T0 - 3600 <= _sec(n) <= T0), 'deq': lambda n: T0 <= _sec(n) <= T0 + 59, 'dne': lambda n: _sec(n) != T0,
 }
 
 TUPLES = {
     'quick': [('gt', 'like', 'isdir', 'hl'), ('ge', 'glob', 'bare', 'btw'),
               ('eq', 'eeq', 'le', 'like'), ('nlike', 'gt', 'nbtw', 'bare'), ('lt', 'ne', 'rx', 'hl'),
-              ('arith', 'len', 'hlge', 'glob'), ('le', 'nrx', 'ene', 'eq'), ('likeA', 'nrxA', 'rxA', 'globA'), ('tgt', 'nanmod', 'szlike', 'litleft', 'frac'), ('tbtw', 'tnbtw', 'nansqrt', 'szrx', 'boolike'), ('nanbtw', 'sznlike', 'litleft2', 'huge', 'lenrx'),
+              ('arith', 'len', 'hlge', 'glob'), ('le', 'nrx', 'ene', 'eq'), ('likeA', 'nrxA', 'rxA', 'globA'), ('tgt', 'nanmod', 'szlike', 'litleft', 'frac'), ('tbtw', 'tnbtw', 'nansqrt', 'szrx', 'boolike'), ('nanbtw', 'sznlike', 'litleft2', 'huge', 'lenrx'), ('dgt', 'dle', 'dbtw', 'dnbtw', 'deq'), ('dge', 'dne', 'dgt', 'deq'),
               ('szpos', 'lc3', 'issym', 'lcge', 'nonot'), ('isf', 'sha', 'shb', 'lc3', 'nonot', 'symlinks'), ('dyn', 'gt', 'eeqw', 'dynrx'), ('dynall', 'glob', 'dynext', 'lt'),
               ('issym', 'big', 'symeq', 'like', 'symlinks')],
 }
@@ -95,6 +113,7 @@ def the_tree():
     t['hl'] = D({'h1.txt': {'t': 'f', 'link': 's05/a.txt'}, 'ha': {'t': 'f', 'link': 's10/ax'},
                  'x': {'t': 'f', 'link': 's20/x'}, 'hb.txt': {'t': 'f', 'link': 's09/b.txt'},
                  'hx': {'t': 'f', 'link': 's10/x'}, 'h3.txt': {'t': 'f', 'link': 's11/a.txt'}})
+    t['tm'] = D({n: F(1, mtime=ts) for n, ts in STAMPS.items()}, mtime=4000000000)
     t['e'] = D({})
     t['ax'] = D({})      # a directory whose name matches the name atoms
     t['x'] = F(10)
